@@ -127,6 +127,10 @@ mod s {
     pub fn show(x: V) -> String {
         sym::show(x)
     }
+    /// abandon this path: the scenario only continues under a stated precondition
+    pub fn cut(reason: &'static str) -> ! {
+        sym::cut(reason)
+    }
 }
 
 #[cfg(not(feature = "sym"))]
@@ -334,6 +338,10 @@ mod c {
     }
     pub fn show(x: V) -> String {
         x.to_string()
+    }
+    pub fn cut(reason: &'static str) -> ! {
+        REPLAY.with(|r| r.borrow_mut().notes.push(format!("cut:{}", reason)));
+        std::panic::panic_any(AssumeFailed)
     }
 }
 
